@@ -221,8 +221,8 @@ def zlist(term):
 
 # ---------------------------------------------------------------- harness
 
-def build_harness():
-    """Build the Go harness against /repo's working tree with -tags verif."""
+def build_harness(cmd):
+    """Build harness/<cmd> (package main) against /repo's working tree with -tags verif."""
     hd = os.path.join(ROOT, "harness")
     with Lock("harness.lock"):
         shutil.copyfile(os.path.join(REPO, "go.sum"), os.path.join(hd, "go.sum"))
@@ -230,16 +230,16 @@ def build_harness():
         want = re.sub(r"replace github.com/skycoin/skycoin => \S+", "replace github.com/skycoin/skycoin => " + REPO, gm)
         if want != gm:   # scratch copies (lib/scratch.sh) point the harness at their own worktree
             open(os.path.join(hd, "go.mod"), "w").write(want)
-        rc, out = sh(["go", "build", "-tags", "verif", "-o", os.path.join(BUILD, "harness"), "."],
+        rc, out = sh(["go", "build", "-tags", "verif", "-o", os.path.join(BUILD, "harness_" + cmd), "./" + cmd],
                      cwd=hd, env=GOENV, timeout=1200)
     return rc == 0, out
 
 
-def harness(args, timeout=3000, env_extra=None):
+def harness(cmd, args, timeout=3000, env_extra=None):
     env = dict(GOENV)
     if env_extra:
         env.update(env_extra)
-    rc, out = sh([os.path.join(BUILD, "harness")] + [str(a) for a in args], env=env, timeout=timeout)
+    rc, out = sh([os.path.join(BUILD, "harness_" + cmd)] + [str(a) for a in args], env=env, timeout=timeout)
     return rc, out
 
 
@@ -429,7 +429,7 @@ def standard_run(ctx, spec):
     if spec.get("uses_gen"):
         ctx.coverage["translated_functions"] = gen_manifest()
 
-    ok, out = build_harness()
+    ok, out = build_harness(spec["cmd"])
     if not ok:
         violation(ctx, {"broken": "harness build against /repo (tag verif) failed", "log": out[-3000:]}, False,
                   "correspondence harness does not build against the current tree")
@@ -444,7 +444,7 @@ def standard_run(ctx, spec):
         data = os.path.join(BUILD, "data_%s_%s%s_%d.v" % (pid, seed, tag, os.getpid()))
         side = data[:-2] + ".json"
         n = spec["budget"][1] if tier in ("thorough", "search") else spec["budget"][0]
-        rc, hout = harness([spec["cmd"], "-seed", seed, "-tier", tier, "-n", n, "-out", data, "-json", side] + list(spec.get("extra_args", [])))
+        rc, hout = harness(spec["cmd"], ["-seed", seed, "-tier", tier, "-n", n, "-out", data, "-json", side] + list(spec.get("extra_args", [])))
         if rc != 0:
             violation(ctx, {"broken": "harness run failed", "log": hout[-3000:]}, False, "harness run failed (rc=%d)" % rc, tag)
             return None
